@@ -6,14 +6,17 @@ VERIF = os.path.dirname(os.path.dirname(os.path.abspath(__file__)))
 SEEDS = {
  'C01a': ('C01', 'back chain_row: a DEFERRED result no longer stops the chain', 'an earlier-tried row (or the forwarding row of a deferring submachine) answers DEFERRED while a later row of the same cell is enabled'),
  'C01b': ('C01', 'backmp11 do_process_event: the sm-internal table is consulted only if the region result is exactly 0 (was: not TRUE/DEFERRED)', 'machine with an sm-level internal row for E while an active region state has a row for E whose guard rejects'),
+ 'C01c': ('C01', 'back favor_compile_time dispatch_table constructor: the per-state (default_init_cell) pass moved before the rows (init_cell) pass', 'active composite state and an outer row on it for the same event: the outer row is tried before the submachine'),
  'C02a': ('C08', 'back do_entry: region initialisation from history moved into the plain-entry variant only', 'explicit entry / fork / entry point into a multi-region submachine after a previous visit moved an untargeted region'),
  'C02c': ('C02', 'back11 region_entry_exit_helper::do_exit: recursion to the next region moved before the exit of this region (regions left in reverse order)', 'multi-region back11 submachine left by an external transition, or stop() of a multi-region root'),
  'C03a': ('C08', 'backmp11 history_impl: remembered configuration starts as all zeros instead of the initial state ids', 'first-ever entry taken under history in a machine with >= 2 regions'),
  'C03c': ('C03', 'backmp11: m_running = true moved from preprocess_entry (all entry paths) into on_entry only', 'first activation of a submachine through an explicit / fork / entry-point entry (never entered plainly before)'),
  'C04a': ('C04', 'backmp11 process_event_internal: the event pool is drained only after a direct call', 'event forwarded to a submachine whose behaviour raises an event on the submachine'),
  'C04b': ('C04', 'back/back11 do_process_helper: the catch handler clears m_event_processing before calling exception_caught', 'exception_caught submits an event (and the failing step queued one before): dispatched re-entrantly inside the handler, order inverted'),
+ 'C04c': ('C04', 'backmp11 do_process_event_pool: only HANDLED_TRUE results count against max_events (was: everything but DEFERRED)', 'bounded drain (process_event_pool(1)) with a pending event that is not handled (no transition / guard reject) and more events behind it'),
  'C05a': ('C05', 'backmp11 is_event_deferred_visitor: |= became =', 'two active deferring states, the later-visited one with a conditional is_event_deferred returning false'),
  'C05b': ('C05', 'back/back11 do_handle_prio_msg_queue_deferred_queue: new deferral cycle only if handled == HANDLED_TRUE (was: TRUE bit set)', 'two regions: one takes the event and leaves the deferring state while the sibling guard-rejects it (result 3)'),
+ 'C05c': ('C05', 'backmp11 process_event_internal: the deferral cycle counter advances only for direct calls ("a submachine call belongs to the parent\'s sequence")', 'Defer action row inside a submachine driven through its parent: the deferred occurrence is never re-offered'),
  'C06a': ('C06', 'back do_process_event: wrong De Morgan on the no_transition guard', 'process_event called directly on a contained submachine (or an enqueued unmatched event)'),
  'C06c': ('C06', 'back constructors taking a states expression: fill_states(this) moved before set_states(expr)', 'outer machine constructed with states_ << Sub(): the user instance overwrites the containment mark, the submachine reports no_transition itself'),
  'C07a': ('C07', 'back chain_row: bit test replaced by equality tests again', 'two-region submachine, one region takes while the sibling guard-rejects, outer row on the same event'),
